@@ -273,7 +273,7 @@ PROPS["C07"] = {
     "technique": "bounded-exhaustive enumeration of every interleaving of two FIFO queues (depth-first by re-execution) per start pattern, trigger kind and version pair, plus rapid-sampled schedules; oracle: bounded termination with both sides encrypted in one common session and a probe text each way",
     "level_text": "for every start pattern {A, B, both} x trigger {query, whitespace tag, error-triggered restart, Send under required encryption, refresh while encrypted} x version pairs sharing a version, all delivery interleavings until quiescence are executed on real conversations",
     "level_note": "liveness is decided as bounded termination on finite schedules (nothing in the library retries on timers); open known finding C07/dhcommit-collision: schedules in which D-H Commits cross are counted as excluded unless they complete, its witness is re-run on every check",
-    "rule": ("a case = (versions of A, versions of B, trigger, who starts, choice vector saying which queue delivers whenever both are non-empty); quick enumerates all interleavings for the version pairs (3,3),(2,2),(23,23) up to 60 per start pattern, thorough all 7 pairs up to 4000; "
+    "rule": ("a case = (versions of A, versions of B, trigger, pre-state {fresh, both encrypted with aged clocks, B restarted and lost its session, A just called End(), B just called End()}, who starts, choice vector saying which queue delivers whenever both are non-empty); starts that are not starts (a Send from an encrypted or finished conversation) are discarded and counted; quick enumerates all interleavings for the version pairs (3,3),(2,2),(23,23) up to 60 per start pattern, thorough all 7 pairs up to 4000; "
              "oracle: quiescence within 200 deliveries, both encrypted, same SSID, the text whose Send started the exchange is delivered, a probe text each way arrives. Non-trivial: both directions had messages in flight at the same moment (a choice was made)."),
     "assumptions": COMMON_ASSUME + ["clocks are aged by three minutes before a refresh so that the 'ignore a repeated query within a minute' window does not apply"],
     "exhaustive_checks": ["C07schedules"],
